@@ -47,6 +47,7 @@ class _State:
     sqrt_atoms = {}        # atom id -> radicand SR  (atom == sqrt(radicand) >= 0)
     root_atoms = {}        # atom id -> (radicand polynomial SR, den)  (atom**den == radicand)
     pending_defs = {}      # atom id -> z3 definitional constraint not yet asserted on this path (lazy)
+    float_sentinels = {}   # SR key -> concrete stand-in returned by float() (text formatting: see vf.engine.textio)
 
 
 ST = _State()
@@ -63,6 +64,7 @@ def reset_atoms():
     ST.sqrt_atoms = {}
     ST.root_atoms = {}
     ST.pending_defs = {}
+    ST.float_sentinels = {}
 
 
 def _new_atom(zexpr):
@@ -663,6 +665,10 @@ class SR(object):
     def __float__(self):
         if self.is_const():
             return float(self.const_value())
+        if ST.float_sentinels:
+            v = ST.float_sentinels.get(self.key())
+            if v is not None:
+                return v
         raise SymUnsupported('float() of a symbolic real')
 
     def __int__(self):
